@@ -135,8 +135,16 @@ fn c05_hdr07_chunk_all_fields() {
 }
 
 fn rt_check_connected(p: &ConnectedPacket, out: &[u8], scratch: &mut [u8; MAX_PACKETSIZE]) {
+    rt_check_connected_opt(p, out, Some(scratch))
+}
+
+fn rt_check_connected_opt(p: &ConnectedPacket, out: &[u8], scratch: Option<&mut [u8; MAX_PACKETSIZE]>) {
     let mut w = WMask(0);
-    let r = Packet::read(&mut w, out, &mut scratch[..]);
+    let r = match scratch {
+        Some(s) => Packet::read(&mut w, out, &mut s[..]),
+        // control packets are never compressed by the writer: read without a scratch buffer
+        None => Packet::read_panic_on_decompression(&mut w, out),
+    };
     match r {
         Ok(Packet::Connected(q)) => {
             assert!(q.ack == p.ack);
@@ -186,8 +194,7 @@ fn rt_control(kind: u8) {
     kani::assume(p.ack >> SEQUENCE_BITS == 0);
     let mut out = [0u8; 16];
     let bytes = p.write(&mut out[..]).unwrap();
-    let mut scratch = [0u8; MAX_PACKETSIZE];
-    rt_check_connected(&p, bytes, &mut scratch);
+    rt_check_connected_opt(&p, bytes, None);
 }
 #[kani::proof]
 #[kani::unwind(14)]
@@ -252,10 +259,9 @@ fn rt_close<const L: usize>() {
     let p = ConnectedPacket { ack: kani::any(), token: Token(kani::any()), type_: ConnectedPacketType::Control(ControlPacket::Close(&reason)) };
     kani::assume(p.ack >> SEQUENCE_BITS == 0);
     let mut out = [0u8; 24];
-    let mut scratch = [0u8; MAX_PACKETSIZE];
     let bytes = p.write(&mut out[..]).unwrap();
     assert!(bytes.len() == HEADER_SIZE + 1 + L + 1);
-    rt_check_connected(&p, bytes, &mut scratch);
+    rt_check_connected_opt(&p, bytes, None);
 }
 #[kani::proof]
 #[kani::unwind(12)]
@@ -312,11 +318,10 @@ fn rt_connless<const L: usize>() {
     let cp = ConnlessPacket { payload: &payload, token: Token(kani::any()), response_token: Token(kani::any()) };
     let p = Packet::Connless(cp);
     let mut out = [0u8; 16];
-    let mut scratch = [0u8; MAX_PACKETSIZE];
     let bytes = p.write(&mut out[..]).unwrap();
     assert!(bytes.len() == HEADER_SIZE_CONNLESS + L);
     let mut w = WMask(0);
-    match Packet::read(&mut w, bytes, &mut scratch[..]) {
+    match Packet::read_panic_on_decompression(&mut w, bytes) {
         Ok(Packet::Connless(q)) => {
             assert!(v_eq(q.payload, &payload) && q.token == cp.token && q.response_token == cp.response_token && w.0 == 0)
         }
